@@ -48,16 +48,21 @@ def case_args(ch):
     return {'kind': 'args', 'args': [a.hex() for a in gen_vec(ch, 200)], 'env': [e.hex() for e in gen_vec(ch, 120)],
             'place': [ch.below(4096) * 4 + 8, ch.below(1 << 16)],
             # edge placement: the string buffer / the pointer array / the size cells end exactly at the end of guest memory
-            'edge': ch.pick((None, None, 'buf', 'ptrs', 'sizes'))}
+            'edge': ch.pick((None, None, 'buf', 'ptrs', 'sizes')),
+            # the host hands over a PREFIX of a longer string array: argv[argc] is not NULL
+            'trim': ch.pick((0, 0, 0, 1, 2, 5))}
 
 
 def run_args(case):
     args = [bytes.fromhex(a) for a in case['args']]
     env = [bytes.fromhex(a) for a in case['env']]
+    trim = min(case.get('trim', 0), len(args))
     d = cexec.new_dir('a')
     ag = W.Agent(d, pages=512)
     try:
-        r = ag.init(args, env)
+        r = ag.init(args, env, trim)
+        if trim:
+            args = args[:len(args) - trim]
         if r != 'ok 1':
             return 'init', 'wasiInit failed: %r' % r
         memsize = 512 * 65536
@@ -315,6 +320,8 @@ def classify(case):
             out.append('args_many')
         if case.get('edge'):
             out.append('args_object_ends_at_memory_end')
+        if case.get('trim'):
+            out.append('argv_longer_than_argc')
     elif case['kind'] == 'misc':
         for op in case['ops']:
             if op[0] == 'random' and op[1] > 256 and op[1] % 256:
